@@ -131,15 +131,21 @@ def run_one(cfg, root):
     plan_path = os.path.join(root, "plandir", "plan.toml")
     store_path = os.path.join(root, "layers", "store.toml")
     store_before = open(store_path, "rb").read() if os.path.isfile(store_path) else (b"<dir>" if os.path.isdir(store_path) else None)
-    full = [os.path.join(root, "layers"), os.path.join(root, "platform"), plan_path] if is_build else \
-           [os.path.join(root, "platform"), plan_path]
+    platform_arg = os.path.join(root, "platform")
+    if cfg.get("odd_platform"):
+        # the platform directory named through a path that is not UTF-8 (file names are bytes)
+        platform_arg = os.path.join(root, "plat-caf\udce9")
+        if not os.path.lexists(platform_arg):
+            os.symlink("platform", platform_arg)
+    full = [os.path.join(root, "layers"), platform_arg, plan_path] if is_build else \
+           [platform_arg, plan_path]
     if cfg["exe"] == "other":
         full = [os.path.join(root, "platform"), plan_path]
     n = cfg["nargs"]
     args = (full + ["extra1", "extra2", "extra3"])[:n]
     env = {"PATH": "/usr/bin:/bin", "VERIF_BP_CONTROL": os.path.join(root, "control.json"), "VERIF_BP_OUT": os.path.join(root, "out")}
     # the lifecycle also exports the paths it passes as arguments (buildpack API >= 0.8); libcnb reads its arguments only
-    env["CNB_PLATFORM_DIR"] = os.path.join(root, "platform")
+    env["CNB_PLATFORM_DIR"] = platform_arg
     env["CNB_APP_DIR"] = os.path.join(root, "app")
     # ... or not at all, or (a variable the platform or an outer process left in the environment) naming some
     # other directory: the app directory is the working directory the phase is started in
@@ -164,7 +170,7 @@ def run_one(cfg, root):
     env.update(cfg.get("extra_env", {}))
     if "LLVM_PROFILE_FILE" in os.environ:      # coverage measurement only (tools/coverage.sh)
         env["LLVM_PROFILE_FILE"] = os.environ["LLVM_PROFILE_FILE"]
-    envb = {k.encode(): (v if isinstance(v, bytes) else v.encode()) for k, v in env.items()}
+    envb = {k.encode(): (v if isinstance(v, bytes) else os.fsencode(v)) for k, v in env.items()}
     p = subprocess.run(["setpriv", "--reuid=65534", "--regid=65534", "--clear-groups",
                         os.path.join(root, "bin", exe_file(cfg))] + args, cwd=os.path.join(root, "app"), env=envb,
                        stdout=subprocess.PIPE, stderr=subprocess.PIPE, timeout=60)
